@@ -56,8 +56,12 @@ func verifSeriesData(name string, S, B, P int) (cursors.CursorIterators, []verif
 	have := false
 	var last int64
 	for s := 0; s < S; s++ {
-		if vrt.Choose(vrt.N(name+"_shard_empty", s), 0, 1) == 1 {
+		switch vrt.Choose(vrt.N(name+"_shard_empty", s), 0, 2) {
+		case 1: // the shard does not know the series: no cursor
 			its = append(its, &verifShard{})
+			continue
+		case 2: // the shard knows the field but holds no point of the series in range: an empty cursor
+			its = append(its, &verifShard{cur: &verifShardCursor{}})
 			continue
 		}
 		c := &verifShardCursor{}
